@@ -62,7 +62,7 @@ def run(R):
     P = R.P
     # ------------------------------------------------------------------ TBL.1
     R.ob('C09.TBL.1', 'type/length numbers are written in their shortest form (byte order of encoded components = canonical order)')
-    tabs = varnum_tables(P)
+    tabs = varnum_tables(P, ('get_tl_num_size', 'write_tl_num'))
     for (what, a, b, okay, detail) in compare_varnum(tabs, only=('get_tl_num_size', 'write_tl_num')):
         inst = f'{a} :: {what}'
         if okay:
